@@ -13,7 +13,9 @@ import (
 
 // ZZ_C07_Admission: one call of decrementSendWindow from an arbitrary sender state.
 //   returns OK        => the free window was at least min(size, W/2) and is debited by exactly size
-//   would have blocked => the free window was below both size and W/2, and is unchanged
+//   would have blocked => the window is unchanged and the wake-up token is consumed
+// ("admits only while": which admissible states may still block is not fixed by the property; that
+// the admission and acknowledgement rules together never deadlock is ZZ_C07_NoDeadlockPair)
 // With a pending wake-up token (param TOKEN=1) the call consumes it and re-evaluates.
 func ZZ_C07_Admission() {
 	w := zzverif.Int32()
@@ -46,7 +48,6 @@ func ZZ_C07_Admission() {
 		}
 		zzverif.Reach("admitted")
 	case st.Code == zzWouldBlock.Code:
-		zzverif.Assert(!admissible, "blocked-although-admissible")
 		zzverif.Assert(after == sw, "blocked-call-changed-window")
 		zzverif.Assert(len(s.sendWindowWait) == 0, "token-not-consumed")
 		zzverif.Reach("blocked")
@@ -107,16 +108,17 @@ func zzC07delta(frame []byte) (int32, bool) {
 	return m.ChannelWindow().Delta(), true
 }
 
-// ZZ_C07_Consume: ReceiveAsync from an arbitrary receiver state. Either the consumed bytes stay
-// below half a window and no update is sent, or exactly one update is sent whose delta equals all
-// bytes consumed since the last update and the counter restarts at zero.
+// ZZ_C07_Consume: ReceiveAsync from an arbitrary receiver state: the accounting is conserved. Either
+// no update is sent and the counter accumulates, or exactly one update is sent whose delta equals all
+// bytes consumed since the last update and the counter restarts at zero. (When the receiver chooses
+// to acknowledge is not fixed here; ZZ_C07_NoDeadlockPair checks it is often enough.)
 func ZZ_C07_Consume() {
 	w := zzverif.Int32()
 	zzverif.Assume(w >= 1 && w <= zzMaxW)
 	rb := zzverif.Int32() // consumed since the last update
-	zzverif.Assume(rb >= 0 && (rb < w/2 || rb == 0))
+	zzverif.Assume(rb >= 0 && rb <= w)
 	size := zzverif.Int()
-	zzverif.Assume(size >= 1 && size <= zzMaxW)
+	zzverif.Assume(size >= 1 && size <= zzMaxW && int64(rb)+int64(size) < 1<<31-1)
 	s, conn, q := zzC07state(w)
 	s.recvBytes.Store(rb)
 	q.sizes = []int{size}
@@ -126,17 +128,55 @@ func ZZ_C07_Consume() {
 	data, ok, st := ch.ReceiveAsync(zzNewCtx())
 	zzverif.Assert(st.OK() && ok && len(data) == size, "message-returned")
 	total := int64(rb) + int64(size)
-	if total < int64(w/2) {
-		zzverif.Assert(len(conn.frames) == 0, "update-sent-too-early")
+	if len(conn.frames) == 0 {
 		zzverif.Assert(int64(s.recvBytes.Load()) == total, "counter-accumulates")
 		zzverif.Reach("no-update")
 	} else {
-		zzverif.Assert(len(conn.frames) == 1, "no-update-at-half-window")
+		zzverif.Assert(len(conn.frames) == 1, "more-than-one-update")
 		d, isw := zzC07delta(conn.frames[0])
 		zzverif.Assert(isw && int64(d) == total, "delta-equals-consumed")
 		zzverif.Assert(s.recvBytes.Load() == 0, "counter-restarts")
 		zzverif.Reach("update")
 	}
+}
+
+// ZZ_C07_NoDeadlockPair: the sender's admission rule and the receiver's acknowledgement rule fit
+// together for every window size. The receiver consumes the last outstanding message (real
+// ReceiveAsync from an arbitrary counter), its update, if it sends one, is delivered (real
+// receiveWindow); now everything sent has been consumed, so the sender's window is W minus the
+// receiver's unacknowledged counter. In that state a Send of any size must be admitted: otherwise
+// both sides wait forever although the receiver consumed everything.
+func ZZ_C07_NoDeadlockPair() {
+	w := zzverif.Int32()
+	zzverif.Assume(w >= 1 && w <= zzMaxW)
+	rb := zzverif.Int32()
+	msg := zzverif.Int()
+	zzverif.Assume(rb >= 0 && rb <= w && msg >= 1 && int64(rb)+int64(msg) < 1<<31-1) // counters are int32; W, sizes <= 2^30
+	zzverif.Assume(msg <= zzMaxW)
+	// receiver
+	r, rconn, q := zzC07state(w)
+	r.recvBytes.Store(rb)
+	q.sizes = []int{msg}
+	rch := &channel{}
+	rch.refs.Store(2)
+	rch.state.Store(r)
+	_, ok, st := rch.ReceiveAsync(zzNewCtx())
+	zzverif.Assume(st.OK() && ok)
+	// sender: everything it sent was consumed; window = W - (bytes not yet acknowledged)
+	s, _, _ := zzC07state(w)
+	s.sendWindow.Store(w - rb - int32(msg))
+	for _, f := range rconn.frames {
+		m, _, err := pmpx.ParseMessage(f)
+		zzverif.Assume(err == nil && m.Code() == pmpx.Code_ChannelWindow)
+		zzverif.Assume(s.receiveWindow(m.ChannelWindow()).OK())
+	}
+	zzverif.Assert(int64(s.sendWindow.Load()) == int64(w)-int64(r.recvBytes.Load()), "window-conservation")
+	size := zzverif.Int()
+	zzverif.Assume(size >= 1 && size <= zzMaxW)
+	probe := zzNewProbe(func() bool { return len(s.sendWindowWait) == 0 })
+	st = s.decrementSendWindow(probe, zzverif.Virtual(size))
+	zzverif.Assert(st.OK(), "deadlock: everything consumed and acknowledged as far as the receiver will, yet Send is not admitted")
+	zzverif.Reach("admitted")
 }
 
 // ZZ_C07_History: two real channel states (sender side S, receiver side R) exchanging K symbolic
